@@ -1,9 +1,17 @@
 SPECIFICATION Spec
 CONSTANTS
   Families = {"fo", "st", "va", "ch", "ne", "dy", "cd"}
-  DynLen = 3
+  DynLen = 4
   CdLen = 2
+  SizeFo = 2
+  SizeVa = 2
+  SizeCh = 1
+  SizeNe = 2
+  ExtClass <- NoExt
+  ExtEsc <- NoExt
+  ExtSep <- OneSpace
 INVARIANT NoResidual
 INVARIANT HideSetsAreNames
 CONSTRAINT DumpConstraint
+VIEW ProgView
 CHECK_DEADLOCK FALSE
